@@ -544,7 +544,32 @@ def shifted_not_summed(fn) -> List[Tuple[ast.AST, str]]:
     return res
 
 
+def name_order(fn) -> List[Tuple[ast.AST, str]]:
+    """bit and qubit names end in decimal indices (`a.10`, `_ret.2`, `q11`): sorted as text, `x.10` comes before `x.2`.
+    Fires on sorted(..) / .sort(..) whose key is a `.name`, or whose operand is a `.bitvec` / the keys of a
+    `qubit_map`, without a numeric key - the result is in index order only up to ten elements."""
+    res = []
+    for c in ast.walk(fn):
+        if not isinstance(c, ast.Call):
+            continue
+        nm = c.func.id if isinstance(c.func, ast.Name) else (c.func.attr if isinstance(c.func, ast.Attribute) else None)
+        if nm not in ("sorted", "sort"):
+            continue
+        key = next((k.value for k in c.keywords if k.arg == "key"), None)
+        operand = c.args[0] if (nm == "sorted" and c.args) else (c.func.value if isinstance(c.func, ast.Attribute) else None)
+        kt = norm(key) if key is not None else ""
+        if "int(" in kt or "index" in kt:
+            continue
+        by_name = key is not None and isinstance(key, ast.Lambda) and any(isinstance(x, ast.Attribute) and x.attr == "name" for x in ast.walk(key.body))
+        ot = norm(operand) if operand is not None else ""
+        names_operand = key is None and (ot.endswith(".bitvec") or "qubit_map" in ot)
+        if by_name or names_operand:
+            res.append((c, f"`{norm(c)[:70]}` orders bit / qubit names as text: `x.10` sorts before `x.2` and `q10` before `q2`, so from the eleventh element on the order is not the index order that positional consumers (return bits, qubit lists, gate wires) assume"))
+    return res
+
+
 RULES = (
+    ("NAME-ORDER", name_order, "bit and qubit names are never ordered as text"),
     ("OFFSET-SUM", shifted_not_summed, "start offsets are running sums of the sizes"),
     ("TRUTHY-OPTIONAL", truthy_optional, "an optional value argument is compared with None, never asked for its truth value"),
     ("STALE-PRECEDENCE", stale_precedence, "the latest definition of a symbol takes precedence over its initial binding"),
@@ -558,6 +583,12 @@ RULES = (
 )
 
 POSITIVE = {
+    "NAME-ORDER": """
+def to_logicfun(self):
+    rets = [e for e in self.expressions if e[0].name in self.returns.bitvec]
+    rets.sort(key=lambda e: e[0].name)
+    return rets
+""",
     "OFFSET-SUM": """
 def decode(out, targs):
     sizes = [size_of(x) for x in targs]
@@ -627,6 +658,13 @@ def compile_thing(self, qc, expr, dest=None):
 }
 
 NEGATIVE = {
+    "NAME-ORDER": """
+def to_logicfun(self):
+    rets = [e for e in self.expressions if e[0].name in self.returns.bitvec]
+    rets.sort(key=lambda e: int(e[0].name.split('.')[-1]))
+    sizes = sorted(len(a) for a in self.args)
+    return rets, sizes
+""",
     "OFFSET-SUM": """
 def decode(out, targs):
     sizes = [size_of(x) for x in targs]
@@ -853,6 +891,63 @@ def check(ctx, pid: Optional[str] = None, prefixes: Optional[Tuple[str, ...]] = 
         if not hits:
             ctx.ok(rule, None, role, f"{len(funcs)} functions of the anchored modules scanned, 0 instances; positive example fires, negative example silent", construct="/".join(p.rstrip(".") for p in prefixes))
     _check_classes(ctx, funcs)
+    rule, role = "MODULE-STATE", "no function changes a module-level container"
+    hits = 0
+    for fi in funcs:
+        for node, what in module_state_writes(fi):
+            hits += 1
+            ctx.fail(rule, fi, role, what, node)
+    if not hits:
+        ctx.ok(rule, None, role, f"{len(funcs)} functions scanned, 0 writes to module-level containers", construct="/".join(p.rstrip(".") for p in prefixes))
+
+
+def module_state_writes(fi: FuncInfo) -> List[Tuple[ast.AST, str]]:
+    """a function that changes a module-level container (a dict / list / set created at import time): item store,
+    in-place method, `global` re-binding.  Whatever it keeps there is shared by every later call in the process -
+    instances handed out twice, results that depend on what was computed before."""
+    m = fi.module
+    if m is None or isinstance(fi.node, ast.Lambda):
+        return []
+    tables = {}
+    for nm, v in m.globals_assigned.items():
+        if isinstance(v, (ast.Dict, ast.List, ast.Set)) or (isinstance(v, ast.Call) and isinstance(v.func, ast.Name) and v.func.id in ("dict", "list", "set", "defaultdict", "OrderedDict", "deque", "WeakValueDictionary") and not v.args):
+            tables[nm] = v
+    if not tables:
+        return []
+    local = set(fi.all_params)
+    for n in ast.walk(fi.node):
+        if isinstance(n, ast.Assign):
+            for t in n.targets:
+                for x in ast.walk(t):
+                    if isinstance(x, ast.Name) and isinstance(x.ctx, ast.Store):
+                        local.add(x.id)
+    globs = {nm for n in ast.walk(fi.node) if isinstance(n, ast.Global) for nm in n.names}
+    local -= globs
+    res = []
+    for n in ast.walk(fi.node):
+        hit = None
+        if isinstance(n, (ast.Assign, ast.AugAssign, ast.Delete)):
+            for t in (n.targets if isinstance(n, (ast.Assign, ast.Delete)) else [n.target]):
+                if isinstance(t, ast.Subscript) and isinstance(t.value, ast.Name) and t.value.id in tables and t.value.id not in local:
+                    hit = (n, t.value.id, "item store")
+                if isinstance(t, ast.Name) and t.id in tables and t.id in globs:
+                    hit = (n, t.id, "`global` re-binding")
+        elif isinstance(n, ast.Call) and isinstance(n.func, ast.Attribute) and n.func.attr in _INPLACE and isinstance(n.func.value, ast.Name) and n.func.value.id in tables and n.func.value.id not in local:
+            hit = (n, n.func.value.id, f".{n.func.attr}()")
+        if hit:
+            res.append((hit[0], f"`{norm(hit[0])[:70]}` changes the module-level `{hit[1]}` ({hit[2]}), created once at import time: what is kept there is shared by every later call in the process (one instance handed to several users, results that depend on what ran before)"))
+            break
+    return res
+
+
+_MODSTATE_POS = """
+_exporters = {}
+
+def get_exporter(framework):
+    if framework not in _exporters:
+        _exporters[framework] = make(framework)
+    return _exporters[framework]
+"""
 
 
 def _check_classes(ctx, funcs):
